@@ -189,9 +189,17 @@ func (c *fctx) isConversion(f ast.Expr) bool {
 		return c.t.named[x.Name] != nil
 	case *ast.SelectorExpr:
 		id, ok := x.X.(*ast.Ident)
+		if ok && id.Obj == nil && id.Name == "time" && (x.Sel.Name == "Duration") { // an integer number of nanoseconds
+			return true
+		}
 		return ok && id.Obj == nil && c.t.named[id.Name+"_"+x.Sel.Name] != nil
 	}
 	return false
+}
+
+func isMapType(e ast.Expr) bool {
+	_, ok := e.(*ast.MapType)
+	return ok
 }
 
 func isMapLit(e ast.Expr) bool {
@@ -308,6 +316,8 @@ func (c *fctx) composite(x *ast.CompositeLit, want string) (string, string) {
 	switch {
 	case ty == "Z" && len(x.Elts) == 0: // time.Time{}
 		return "0", "Z"
+	case ty == "unit": // struct{}{}
+		return "tt", "unit"
 	case t.recs[ty] != nil:
 		vals := map[string]string{}
 		for _, el := range x.Elts {
@@ -421,6 +431,8 @@ func (c *fctx) call(x *ast.CallExpr, want string) (string, string) {
 		}
 		b, _ := arg(1, unparen(strings.TrimPrefix(ta, "list ")))
 		return "app " + a + " [" + b + "]", ta
+	case name == "make" && len(x.Args) == 2 && isMapType(x.Args[0]): // make(map[string]T, capacity)
+		return "[]", t.typ(x.Args[0])
 	case name == "make" && len(x.Args) == 2 && t.src(x.Args[1]) == "0": // make([]T, 0)
 		if ty := t.typ(x.Args[0]); strings.HasPrefix(ty, "list ") {
 			return "[]", ty
